@@ -156,8 +156,8 @@ theorem C19_unknown_not_found (c : Config) (st : State) (h : build c = .ok st) :
 /-- The service list when `with_service_name` was never called: exactly the services declared by
 the served files — as a list, in the order they are examined, and as a set. -/
 theorem C19_services_declared (c : Config) (st : State) (h : build c = .ok st)
-    (hch : c.chosen = none) :
-    respond st .listServices = .ok (.services ((served c.procFiles).flatMap serviceNames)) ∧
+    (hch : c.chosen = none) (s : Name) :
+    respond st (.listServices s) = .ok (.services ((served c.procFiles).flatMap serviceNames)) ∧
     ∀ n, n ∈ (served c.procFiles).flatMap serviceNames ↔
       ∃ f nm, assoc nm st.files = some f ∧ DeclaresService f n := by
   have hb := (build_ok h).2
@@ -180,10 +180,10 @@ theorem C19_services_declared (c : Config) (st : State) (h : build c = .ok st)
 /-- Order-free form: when no file name is contested, the service list is — up to order — the
 services of one copy of every registered file (a file registered twice is listed once). -/
 theorem C19_services_exactly_declared (c : Config) (st : State) (h : build c = .ok st)
-    (hch : c.chosen = none) (hu : ∀ f ∈ c.files, Unconflicted c.files f) :
-    ∃ l, respond st .listServices = .ok (.services l) ∧
+    (hch : c.chosen = none) (hu : ∀ f ∈ c.files, Unconflicted c.files f) (s : Name) :
+    ∃ l, respond st (.listServices s) = .ok (.services l) ∧
       l.Perm ((served c.files).flatMap serviceNames) :=
-  ⟨_, (C19_services_declared c st h hch).1,
+  ⟨_, (C19_services_declared c st h hch s).1,
     (served_perm (procFiles_perm c) hu).flatMap_right serviceNames⟩
 
 /-- Why the service does not build, when it does not: a registered byte string prost rejects
@@ -212,33 +212,37 @@ theorem C19_build_error_cause (c : Config) (e : Err) (h : build c = .error e) :
 /-- The service list when services were chosen explicitly: exactly the chosen names, in call
 order, whatever was registered. -/
 theorem C19_services_chosen (c : Config) (st : State) (h : build c = .ok st) (l : List Name)
-    (hch : c.chosen = some l) : respond st .listServices = .ok (.services l) := by
+    (hch : c.chosen = some l) (s : Name) : respond st (.listServices s) = .ok (.services l) := by
   have hs := addFiles_services (good_init (c.chosen.getD [])) (build_ok h).2
   simp only [hch, Option.getD_some, Option.isNone_some] at hs
   simp only [respond, hs]
   simp
 
-/-- One call (request stream): the answers are, in order, the answers to the first requests;
-the stream ends cleanly exactly when every request was answered, and otherwise ends with the
-error status of the first request that failed — nothing after it is answered. -/
-theorem C19_stream_answers (st : State) (reqs : List Req) :
+/-- One call (request stream): the answers are, in order, the answers to the first requests,
+each echoing its request; the stream ends cleanly exactly when every request was answered, and
+otherwise ends with the error status of the first request that failed — nothing after it is
+answered. -/
+theorem C19_stream_answers (st : State) (reqs : List Request) :
     (runStream st reqs).1.length ≤ reqs.length ∧
-    (∀ (i : Nat) (a : Answer), (runStream st reqs).1[i]? = some a → ∃ r, reqs[i]? = some r ∧ respond st r = .ok a) ∧
+    (∀ (i : Nat) (a : Response), (runStream st reqs).1[i]? = some a →
+      ∃ r, reqs[i]? = some r ∧ respond st r.messageRequest = .ok a.answer ∧
+        a.validHost = r.host ∧ a.originalRequest = r) ∧
     ((runStream st reqs).2 = none → (runStream st reqs).1.length = reqs.length) ∧
     (∀ e : Code × Bytes, (runStream st reqs).2 = some e →
-      ∃ r : Req, reqs[(runStream st reqs).1.length]? = some r ∧ respond st r = .error e) := by
+      ∃ r : Request, reqs[(runStream st reqs).1.length]? = some r ∧
+        respond st r.messageRequest = .error e) := by
   induction reqs with
   | nil => simp [runStream]
   | cons r rs ih =>
     simp only [runStream]
-    cases hr : respond st r with
+    cases hr : respond st r.messageRequest with
     | error e => simp [hr]
     | ok a =>
       obtain ⟨h1, h2, h3, h4⟩ := ih
       refine ⟨by simp; omega, ?_, by simpa using h3, by simpa using h4⟩
       intro i b hb
       cases i with
-      | zero => simp at hb; subst hb; exact ⟨r, by simp, hr⟩
+      | zero => simp at hb; subst hb; exact ⟨r, by simp, hr, rfl, rfl⟩
       | succ i => simp at hb; simpa using h2 i b hb
 
 /-- v1 / v1alpha: the two services are the same code over different own descriptors.  Adding an
